@@ -26,7 +26,7 @@ sys.path.insert(0, str(Path(__file__).resolve().parent))
 import common as C
 
 PID = "C08"
-TARGETS = ["PubSub/Model.vo", "PubSub/Proofs.vo", "Props/C08.vo"]
+TARGETS = ["PubSub/Model.vo", "PubSub/SubsProofs.vo", "PubSub/EventProofs.vo", "PubSub/Proofs.vo", "PubSub/OpsProofs.vo", "Props/C08.vo"]
 N_ET = 3
 N_LIS = 4
 
